@@ -159,7 +159,43 @@ impl Property for C03 {
             c.settle_between = m & 1 == 0;
             c
         });
-        Box::new(a.chain(b).enumerate().filter(move |(i, _)| i % workers == worker).map(|(_, c)| c))
+        // remaining-length widths 3 and 4: 20 KiB and 2 MiB + 1 KiB payloads, coarse chunkings
+        let mut big = vec![];
+        let kibs: Vec<u16> = if tier == Tier::Thorough { vec![20, 2049] } else { vec![20] };
+        for kib in kibs {
+            for (plan, sb) in [
+                (ChunkPlan::Whole, false),
+                (ChunkPlan::Fixed(65535), true),
+                (ChunkPlan::Fixed(4099), false),
+                (ChunkPlan::Fixed(1), true),
+                (ChunkPlan::Random(vec![1, 2, 3, 40000, 65000]), true),
+                (ChunkPlan::NearBounds(vec![-1, 1]), false),
+                (ChunkPlan::Mask(0xff0), true),
+                (ChunkPlan::Mask(0x20), false),
+                (ChunkPlan::Mask(0x40), true),
+            ] {
+                if kib > 100 && matches!(plan, ChunkPlan::Fixed(1)) {
+                    continue; // 2 M one-byte reads: minutes, no new boundary
+                }
+                big.push(Case {
+                    subs: 1,
+                    pings: 1,
+                    pub1: 0,
+                    pub2: 0,
+                    items: vec![
+                        Inbound::Ack { sel: 0, deco: short },
+                        Inbound::BigPublish { kib },
+                        Inbound::Publish { qos: 1, dup: false, retain: false, pid: 0, target: Target::Sub(0), payload_len: 3 },
+                    ],
+                    plan,
+                    settle_between: sb,
+                    read_cap: 0,
+                    read_yield: false,
+                    eof_after: true,
+                });
+            }
+        }
+        Box::new(a.chain(b).chain(big).enumerate().filter(move |(i, _)| i % workers == worker).map(|(_, c)| c))
     }
 
     fn assumptions() -> Vec<String> {
